@@ -575,7 +575,21 @@ impl<'a, 'b> G<'a, 'b> {
             K::Str(kind) => {
                 let (s, mut forms) = self.str_value(*kind);
                 forms.push(format!("cstring:{}", kind.asn()));
-                Lit { av: AV::Str(s.clone()), text: format!("\"{}\"", s.replace('"', "\"\"")), forms }
+                let quoted = s.replace('"', "\"\"");
+                // a cstring may run over several lines: the line break and the spacing characters
+                // next to it are not part of the value (X.680 12.14.1). Written only where the
+                // characters on both sides of the break are not blanks themselves.
+                let cs: Vec<char> = s.chars().collect();
+                if matches!(kind, StrKind::Utf8 | StrKind::Ia5) && cs.len() >= 2 && depth == 0 && self.src.chance(6) {
+                    let at = 1 + self.src.pick(cs.len() - 1);
+                    if cs[at - 1] != ' ' && cs[at] != ' ' && cs[at - 1] != '"' && cs[at] != '"' {
+                        let head: String = cs[..at].iter().collect::<String>().replace('"', "\"\"");
+                        let tail: String = cs[at..].iter().collect::<String>().replace('"', "\"\"");
+                        forms.push("cstring:multi-line".into());
+                        return Lit { av: AV::Str(s.clone()), text: format!("\"{head}  \n      {tail}\""), forms };
+                    }
+                }
+                Lit { av: AV::Str(s.clone()), text: format!("\"{quoted}\""), forms }
             }
             K::Bits { named } => {
                 let mut forms = vec![];
@@ -1293,6 +1307,11 @@ fn classify(case: &Case, key: &str, p: Option<&Point>, got: Option<&AV>, err: Op
                 _ => None,
             }
         }
+        // a cstring over several lines keeps the line break and the spacing next to it
+        K::Str(StrKind::Utf8 | StrKind::Ia5) if p.ty == case.subject && case.v0.forms.iter().chain(case.dflt.forms.iter()).any(|f| f == "cstring:multi-line") => match got {
+            Some(AV::Str(g)) if g.contains('\n') && g.chars().filter(|c| *c != '\n' && *c != ' ').eq(want.chars().filter(|c| *c != ' ')) => Some("F-multiline-cstring"),
+            _ => None,
+        },
         // ... and as big-endian 32-bit units for TeletexString: any length that is not a multiple of 4 panics
         K::Str(StrKind::Teletex) if p.ty == case.subject => (want.len() % 4 != 0 && err == Some("the initialiser panics")).then_some("F-teletex-value"),
         _ => None,
@@ -1635,6 +1654,10 @@ fn ts_leg(ctx: &mut Ctx, cases: &[Case]) {
                 if t.contains('"') || t.contains('\\') || t.contains('\n') {
                     return out;
                 }
+            }
+            // (a cstring over several lines is the listed finding F-multiline-cstring in either backend)
+            if c.v0.forms.iter().any(|f| f == "cstring:multi-line") {
+                return out;
             }
             // BMPString / TeletexString: the listed findings concern the rasn constructor only; JER is plain text
             let text = case_text(c, "Val-Ts");
